@@ -28,12 +28,12 @@ NAMES = [None, "bob", "Zoë", "名前", "a b", "0", "None", "x" * 40]
 
 def floors(tier):
     q = tier == "quick"
-    return {"ctor/rating": 60000 if q else 1000000, "ctor/create_rating": 25000 if q else 400000,
-            "deepcopy": 25000 if q else 400000, "deepcopy/fresh": 10000 if q else 200000, "league/step": 12000 if q else 250000, "ctor/falsy": 20000 if q else 300000}
+    return {"ctor/rating": 60000 if q else 6000000, "ctor/create_rating": 25000 if q else 2400000,
+            "deepcopy": 25000 if q else 2400000, "deepcopy/fresh": 10000 if q else 1200000, "league/step": 12000 if q else 1500000, "ctor/falsy": 20000 if q else 1800000}
 
 
 def generate(ctx):
-    n = ctx.budget(120000, 2000000)
+    n = ctx.budget(120000, 12000000)
     rng = ctx.rng
     per = 40
     for _ in range(max(1, n // per)):
@@ -47,11 +47,13 @@ def generate(ctx):
                            items=items)
     combos = [(m, mode) for m in MODEL_NAMES for mode in ("skill", "random", "adversarial")]
     G = 1000 if ctx.tier == "quick" else 20000
-    for ci, (m, mode) in enumerate(combos):
-        if ci % ctx.nshards != ctx.shard:
-            continue
-        cfg = league.league_cfg(rng, gen, scale=rng.choice([1.0, 1.0, 1e-2, 1e2]), gammas=["default", "default", "dep"])
-        yield "league", dict(model=m, cfg=cfg, players=40, games=G, mode=mode, seed=rng.randrange(2 ** 31), percall=True)
+    for rep in range(1 if ctx.tier == "quick" else 7):
+        for ci, (m, mode) in enumerate(combos):
+            if (ci + 4 * rep) % ctx.nshards != ctx.shard:
+                continue
+            cfg = league.league_cfg(rng, gen, scale=rng.choice([1.0, 1.0, 1e-2, 1e2]), gammas=["default", "default", "dep"])
+            yield "league", dict(model=m, cfg=cfg, players=rng.choice([12, 40, 40]), games=G, mode=mode,
+                                 seed=rng.randrange(2 ** 31), percall=True)
 
 
 def _exact(got, want):
